@@ -225,6 +225,11 @@ IOVec == [
   growriter_pos |-> Neg(DistIn(GroSys.distance)), growriter_box |-> Neg(DistIn(GroSys.distance)),
   growriter_vel |-> SpecConv("Velocity", Csg.velocity, GroSys.velocity),
   xyzreader_pos |-> DistIn(AngSys.distance), xyzwriter_pos |-> Neg(DistIn(AngSys.distance)),
+  \* the generic-container overloads (atoms of QM molecules, positions in bohr): XYZReader::ReadFile(container),
+  \* XYZWriter::Write(container, header), PDBWriter::WriteContainer(container)
+  xyzreader_pos_atoms |-> SpecConv("Distance", AngSys.distance, "bohr"),
+  xyzwriter_pos_atoms |-> SpecConv("Distance", "bohr", AngSys.distance),
+  pdbwriter_pos_atoms |-> SpecConv("Distance", "bohr", AngSys.distance),
   pdbreader_pos |-> DistIn(AngSys.distance), pdbreader_box |-> DistIn(AngSys.distance),
   pdbwriter_pos |-> Neg(DistIn(AngSys.distance)),
   dlpolyreader_pos |-> DistIn(DlpolySys.distance), dlpolyreader_box |-> DistIn(DlpolySys.distance),
@@ -234,7 +239,8 @@ IOVec == [
   dlpolywriter_vel |-> SpecConv("Velocity", Csg.velocity, DlpolySys.velocity),
   dlpolywriter_force |-> CsgForceSI \ominus DlForceSI]
 IONames == <<"groreader_pos", "groreader_box", "groreader_vel", "growriter_pos", "growriter_box", "growriter_vel",
-             "xyzreader_pos", "xyzwriter_pos", "pdbreader_pos", "pdbreader_box", "pdbwriter_pos",
+             "xyzreader_pos", "xyzwriter_pos", "xyzreader_pos_atoms", "xyzwriter_pos_atoms", "pdbwriter_pos_atoms",
+             "pdbreader_pos", "pdbreader_box", "pdbwriter_pos",
              "dlpolyreader_pos", "dlpolyreader_box", "dlpolyreader_vel", "dlpolyreader_force",
              "dlpolywriter_pos", "dlpolywriter_box", "dlpolywriter_vel", "dlpolywriter_force">>
 (* products of constants used in the sources, literals in scripts, unit switches of tools::Elements *)
@@ -243,10 +249,15 @@ ExprVec == [
   kB_times_ev2kj_per_mol |-> (G("kB", 1) \oplus G("NA", 1)) \ominus Ten(3),
   \* csg/share/scripts/inverse/functions_gromacs.sh: literal 0.00831451 "k_b in gromacs units"
   script_gromacs_kB |-> (G("kB", 1) \oplus G("NA", 1)) \ominus Ten(3),
+  \* csg_boltzmann TabulatedPotential ("tab"): U = -k_B T ln p in kJ/mol.  Observed thermal-energy constant
+  \* U / (T ln(n1/n2)) of the populated bins and of the bins WITHOUT samples (documented: they get the value of the
+  \* least populated bin) - the same k_B in kJ/mol/K at every site of the table
+  boltzmann_populated |-> (G("kB", 1) \oplus G("NA", 1)) \ominus Ten(3),
+  boltzmann_empty |-> (G("kB", 1) \oplus G("NA", 1)) \ominus Ten(3),
   \* tools::Elements::getCovRad(name, unit): ratio of the "bohr" / "nm" answer to the "ang" answer
   covrad_bohr_per_ang |-> SpecConv("Distance", "angstroms", "bohr"),
   covrad_nm_per_ang |-> SpecConv("Distance", "angstroms", "nanometers")]
-ExprNames == <<"kB_times_ev2kj_per_mol", "script_gromacs_kB", "covrad_bohr_per_ang", "covrad_nm_per_ang">>
+ExprNames == <<"kB_times_ev2kj_per_mol", "script_gromacs_kB", "boltzmann_populated", "boltzmann_empty", "covrad_bohr_per_ang", "covrad_nm_per_ang">>
 
 UCPlaces == {UC(d, a, b) : <<d, a, b>> \in
                UNION {{<<d, a, b>> : a \in UnitsOf(d), b \in UnitsOf(d)} : d \in Dims}}
@@ -333,7 +344,12 @@ SelfObs == {
 \* m_u N_A = 1 g/mol only up to 3.5e-10 since SI-2019: a "nearly" identity, vector not zero
 NearObs == {[kind |-> "near", terms |-> <<T(GEN("amu"), 1), T(GEN("NA"), 1), T(GEN("ten"), 3)>>]}
 
-Obligations == ValueObs \cup RoundTripObs \cup TripleObs \cup ChainObs \cup DerivedObs \cup SameObs
+\* compositions across overloads: the same xyz file read into a Topology (nm) and into an atom container (bohr)
+ComposeObs == {[kind |-> "compose", terms |-> <<T(IO("xyzreader_pos_atoms"), 1), T(IO("xyzreader_pos"), -1),
+                                              T(CONST("nm2bohr"), -1)>>],
+               [kind |-> "compose", terms |-> <<T(IO("xyzwriter_pos_atoms"), 1), T(IO("xyzwriter_pos"), -1),
+                                              T(CONST("bohr2nm"), -1)>>]}
+Obligations == ComposeObs \cup ValueObs \cup RoundTripObs \cup TripleObs \cup ChainObs \cup DerivedObs \cup SameObs
                \cup SelfObs \cup NearObs
 NoOb == [kind |-> "none", terms |-> <<>>]
 
@@ -386,7 +402,7 @@ AlgoIsSpec == \A i \in DOMAIN ob.terms :
                 LET p == ob.terms[i].p IN p.t = "uc" => AlgoConv(p.dim, p.a, p.b) = SpecConv(p.dim, p.a, p.b)
 \* every emitted identity is an identity of the algebra (round trip, transitivity,
 \* chains, derived = quotient, same quantity, generator relations)
-IdentityKinds == {"roundtrip", "transitive", "chain", "derived", "same"}
+IdentityKinds == {"roundtrip", "transitive", "chain", "derived", "same", "compose"}
 IdentityHolds == ob.kind \in IdentityKinds => SumTerms(ob.terms) = Zero
 \* identity conversions are exactly the diagonal, except atomic mass unit vs g/mol
 \* which the code equates (both 1.0) and which differ by m_u N_A / (g/mol) - 1 = -3.5e-10
